@@ -281,3 +281,35 @@ func TestReplayDeterminism(t *testing.T) {
 		t.Errorf("replay not deterministic:\n%s\n---\n%s", l1, l2)
 	}
 }
+
+// A value read from a shared variable and only passed on later: the state in which the reader has already read
+// "old" and the one in which it has read "new" have the same thread positions; the key must tell them apart
+// (reads-from is part of the reader's history).
+func TestPruningKeepsReadsFrom(t *testing.T) {
+	setup := func(w *sched.World, out *string) func() {
+		x := "old"
+		return func() {
+			sched.Init("x")
+			sched.Go(func() {
+				sched.Access("store", nil, []string{"x"})
+				x = "new"
+				sched.Wrote("x")
+				sched.Yield("after-store")
+			})
+			sched.Access("load", []string{"x"}, nil)
+			v := x
+			sched.Yield("use") // the value is only announced later
+			sched.Yield("use2")
+			*out = v
+			sched.MainReturn(v)
+		}
+	}
+	np := explore(t, true, setup)
+	p := explore(t, false, setup)
+	d := exploreDPOR(t, setup)
+	for name, r := range map[string]result{"unpruned": np, "pruned": p, "dpor": d} {
+		if r.outcomes["old"] == 0 || r.outcomes["new"] == 0 {
+			t.Errorf("%s: outcomes %v, want both old and new", name, r.outcomes)
+		}
+	}
+}
